@@ -162,9 +162,9 @@ def oracle_case(rng, out, names, dual):
     g = bt.gc_content(s)
     if abs(g - sum(ch in "GC" for ch in s) / n) > 1e-12:
         out.append(dict(kind="gc-global", input=[s], detail=float(g)))
-    w = rng.randint(1, n)
+    w = rng.randint(1, n) if rng.random() < 0.8 else rng.randint(n + 1, 2 * n + 2)   # also: more than the sequence holds (no window)
     arr = bt.gc_content(s, window_size=w)
-    want = [sum(ch in "GC" for ch in s[i:i + w]) / w for i in range(n - w + 1)]
+    want = [sum(ch in "GC" for ch in s[i:i + w]) / w for i in range(max(0, n - w + 1))]
     if len(arr) != len(want) or any(abs(float(a) - b) > 1e-12 for a, b in zip(arr, want)):
         out.append(dict(kind="gc-window", input=[s, w], detail=[float(x) for x in arr]))
     t = "".join(ch if rng.random() < 0.7 else rng.choice("ATGC") for ch in s)
